@@ -109,6 +109,8 @@ def run(ctx):
     for n in range(nfam):
         fam = M.rand_family(rng, tokbase=1 + 100 * n)
         merge, dupsort = M.MODES[n % 4]
+        if dupsort and not merge:
+            fam = M.prefix_related_values(fam, rng)
         graph_family(ctx, b, n, fam, merge, dupsort, variants[(n // 4) % 4] if n >= 4 else "readers")
     regressions(ctx)
     random_histories(ctx, b)
